@@ -30,7 +30,9 @@ type memStore struct {
 	// slowOnce: the first range read sleeps this long (virtual)
 	slowOnce time.Duration
 	// growTo: after the first request the store holds up to growTo
-	growTo  uint64
+	growTo uint64
+	// latency: every range read takes this long (virtual)
+	latency time.Duration
 	served  int
 	onServe func(n int)
 }
@@ -42,7 +44,11 @@ func (m *memStore) hook() {
 	slow := m.slowOnce
 	m.slowOnce = 0
 	cb := m.onServe
+	lat := m.latency
 	m.mu.Unlock()
+	if lat > 0 {
+		time.Sleep(lat)
+	}
 	if slow > 0 {
 		time.Sleep(slow)
 	}
@@ -170,7 +176,12 @@ func c18Exec(t *testing.T, run *vk.Run, c c18Case) (out c18Out, ok bool) {
 					}
 				}
 			}
-			srv, err := p2p.NewExchangeServer[*vk.H](&dlHost{Host: hosts[i+1], honour: c.Honour}, ms, p2p.WithNetworkID[p2p.ServerParameters](netID))
+			sh := &dlHost{Host: hosts[i+1], honour: c.Honour}
+			if strings.HasPrefix(c.Fault, "idle-disconnect") {
+				// every answer (also NOT_FOUND) takes 3ms, so chunks, re-requests and the disconnect are spread over time
+				sh.latency = 3 * time.Millisecond
+			}
+			srv, err := p2p.NewExchangeServer[*vk.H](sh, ms, p2p.WithNetworkID[p2p.ServerParameters](netID))
 			if err != nil {
 				run.HarnessError("C18 server: %v", err)
 				return
@@ -195,6 +206,17 @@ func c18Exec(t *testing.T, run *vk.Run, c c18Case) (out c18Out, ok bool) {
 		ctx, cancel := context.WithTimeout(bg, callerLimit)
 		defer cancel()
 		start := time.Now()
+		if strings.HasPrefix(c.Fault, "idle-disconnect") {
+			at := time.Millisecond
+			if strings.HasSuffix(c.Fault, "-4") {
+				at = 4 * time.Millisecond
+			}
+			pi := hosts[c.FaultP+1].ID()
+			go func() {
+				time.Sleep(at)
+				_ = mn.DisconnectPeers(hosts[0].ID(), pi)
+			}()
+		}
 		call := vk.Spawn(func() ([]*vk.H, error) { return ex.GetRangeByHeight(ctx, c18Chain[c18From], to) })
 		for i := 0; i < 140 && !call.Done(); i++ {
 			vk.Advance(time.Second)
@@ -334,7 +356,7 @@ func c18RoundTrips(t *testing.T, run *vk.Run) {
 func TestC18(t *testing.T) {
 	run := vk.NewRun("C18", "model_checking")
 	defer run.Finish()
-	run.SetRule("real Exchange against real ExchangeServers (honest in-memory stores) over mocknet: every (chunk size m, range length L=1..3m, number of peers P, per-peer availability vector over {empty, up to from, half of the range, full} with at least one full peer, benign fault {none, slow once beyond RequestTimeout, disconnect after first answer, store grows after first answer} x faulty peer); plus Head/Get/GetByHeight wire round trips; distinct = (m, remainder?, P, availability classes, fault, L, outcome)")
+	run.SetRule("real Exchange against real ExchangeServers (honest in-memory stores) over mocknet: every (chunk size m, range length L=1..3m, number of peers P, per-peer availability vector over {empty, up to from, half of the range, full} with at least one full peer, benign fault {none, slow once beyond RequestTimeout, disconnect after first answer, store grows after first answer, connection dropped 1ms / 4ms into the call while every answer takes 3ms (so the peer may be idle in the session queue)} x faulty peer); plus Head/Get/GetByHeight wire round trips; distinct = (m, remainder?, P, availability classes, fault, L, outcome)")
 	run.Assume("benign = honest data only; deviation bound 1 benign fault per run")
 
 	var rc c18Case
@@ -383,7 +405,7 @@ func TestC18(t *testing.T) {
 						base := c18Case{M: m, L: l, Avail: append([]uint64(nil), av...), Fault: "none", Honour: true}
 						cases = append(cases, base)
 						if p >= 2 {
-							for _, f := range []string{"slow", "disconnect", "grow"} {
+							for _, f := range []string{"slow", "disconnect", "grow", "idle-disconnect-1", "idle-disconnect-4"} {
 								for fp := 0; fp < p; fp++ {
 									// keep at least one untouched fully capable peer
 									other := false
